@@ -355,6 +355,20 @@ func modeData(seed uint64, n int, out *sx.Out) {
 			lv := sx.Pick(r, []string{"abcd12", "6c73", "2f62696e2f6c73", "deadbeef", "6C7", "cafe", "Abcd"})
 			body = fmt.Sprintf("%s=%s op=%s %s=%s res=%s gone=%s", plainK, plainV, encUntrusted("set"), lk, lv, sx.Pick(r, []string{"1", "0", "success", "failed"}), ph)
 			wants = append(wants, want{key: plainK, value: plainV}, want{key: "op", value: "set"}, want{key: "gone", gone: true}, want{key: lk, value: lv})
+			if r.Chance(1, 2) {
+				// any subset of the three id fields, each unset in either spelling or set: each is normalised on its own
+				for _, idk := range []string{"ses", "old-auid", "auid"} {
+					if r.Chance(1, 2) {
+						continue
+					}
+					v := sx.Pick(r, []string{"4294967295", "-1", "1000", "0", "42949672950", "-10"})
+					body += " " + idk + "=" + v
+					if v == "4294967295" || v == "-1" {
+						v = "unset"
+					}
+					wants = append(wants, want{key: idk, value: v})
+				}
+			}
 			if lk != "cwd" && r.Chance(1, 3) {
 				// a kernel-encoded working directory in a record type of no special kind: cwd is decoded everywhere
 				cwd := "/" + genValue(r)
